@@ -550,9 +550,11 @@ func (c *CharSet) addSpace(ecma, re2, negate bool) {
 	}
 }
 
-func (c *CharSet) addWord(ecma, negate bool) {
+func (c *CharSet) addWord(ecma, negate, caseInsensitive bool) {
 	if ecma {
-		if negate {
+		if negate && caseInsensitive {
+			c.addNegativeRangesIgnoreCase(ECMAWordClass().ranges)
+		} else if negate {
 			c.addRanges(NotECMAWordClass().ranges)
 		} else {
 			c.addRanges(ECMAWordClass().ranges)
@@ -652,6 +654,38 @@ func (c *CharSet) addNegativeRanges(ranges []SingleRange) {
 	}
 
 	c.canonicalize()
+}
+
+// Merges the complement of an ASCII class into our own for a case-insensitive context.
+//
+// The complement of an ASCII class is stored as positive ranges, and case-insensitivity later
+// adds the case variants of every member. The complement of [0-9A-Za-z_] contains the
+// KELVIN SIGN and the LONG S, whose variants are k and s: (?i)\W would match "k". So the
+// class is closed under case variants first (including the non-ASCII runes that fold or
+// lower-case into it) and only then complemented.
+func (c *CharSet) addNegativeRangesIgnoreCase(ranges []SingleRange) {
+	closed := &CharSet{}
+	for _, r := range ranges {
+		closed.ranges = append(closed.ranges, r)
+		for ch := r.First; ch <= r.Last && ch < utf8.RuneSelf; ch++ {
+			switch {
+			case ch >= 'a' && ch <= 'z':
+				closed.ranges = append(closed.ranges, SingleRange{ch - 'a' + 'A', ch - 'a' + 'A'})
+			case ch >= 'A' && ch <= 'Z':
+				closed.ranges = append(closed.ranges, SingleRange{ch - 'A' + 'a', ch - 'A' + 'a'})
+			}
+			switch ch | 0x20 {
+			case 'k':
+				closed.ranges = append(closed.ranges, SingleRange{'\u212A', '\u212A'})
+			case 's':
+				closed.ranges = append(closed.ranges, SingleRange{'\u017F', '\u017F'})
+			case 'i':
+				closed.ranges = append(closed.ranges, SingleRange{'\u0130', '\u0130'})
+			}
+		}
+	}
+	closed.canonicalize()
+	c.addNegativeRanges(closed.ranges)
 }
 
 func normalizeUnicodeCategoryAlias(catName string) string {
@@ -780,7 +814,7 @@ func (c *CharSet) addRange(chMin, chMax rune) {
 	c.canonicalize()
 }
 
-func (c *CharSet) addNamedASCII(name string, negate bool) bool {
+func (c *CharSet) addNamedASCII(name string, negate, caseInsensitive bool) bool {
 	var rs []SingleRange
 
 	switch name {
@@ -809,7 +843,7 @@ func (c *CharSet) addNamedASCII(name string, negate bool) bool {
 	case "upper":
 		rs = []SingleRange{{'A', 'Z'}}
 	case "word":
-		c.addWord(true, negate)
+		c.addWord(true, negate, caseInsensitive)
 	case "xdigit":
 		rs = []SingleRange{{'0', '9'}, {'A', 'F'}, {'a', 'f'}}
 	default:
@@ -817,7 +851,9 @@ func (c *CharSet) addNamedASCII(name string, negate bool) bool {
 	}
 
 	if len(rs) > 0 {
-		if negate {
+		if negate && caseInsensitive {
+			c.addNegativeRangesIgnoreCase(rs)
+		} else if negate {
 			c.addNegativeRanges(rs)
 		} else {
 			c.addRanges(rs)
